@@ -4,6 +4,7 @@ Fault enumeration: link fault (write error, read error before/after the device
 acted, time-out before/after) at every exchange index of every command, then
 1..3 follow-up requests with a scripted reconnection outcome (ok / device absent
 j times / open fails j times).  Transport-log ordering oracle."""
+import copy
 from sim import boot
 boot.boot()
 
@@ -87,7 +88,13 @@ def run_one(ch, cfg):
     follow_log = []
     reconnected = False
     stopped = exc is not None
-    probe = {"command": "getPubKey", "keyId": "m/44'/0'/0'/0/0", "version": 1 if v1 else 5}
+    # the follow-up requests are of a drawn command: every handler has to repair the connection first
+    pv = ch.pick(["v1.getPubKey", "v1.sign"] if v1 else
+                 ["getPubKey", "sign.hash", "blockchainState", "blockchainParameters", "signerHeartbeat",
+                  "sign.legacy"], "follow-up.command")
+    probe, pexp, _pv1, _pd = c04.build_request(pv, pseed, cseed + 7)
+    if pexp is not None and pexp.get("kind") == "sign":
+        pexp["der"] = bytes.fromhex("3006020101020102")
     if script[0] == "bringup-timeout":
         nfollow = max(nfollow, 2)
     repaired = not is_link_failure        # a bring-up has completed since the link failure
@@ -105,6 +112,7 @@ def run_one(ch, cfg):
             arm = {"at": link.index + script[1]}
             link.fault_fn = lambda idx, apdu: "timeout_before" if idx == arm["at"] else None
             m0 = len(link.transport)
+            dev.expect = copy.deepcopy(pexp)
             rep2, exc2 = w.request(probe)
             link.fault_fn = None
             ev = link.transport[m0:]
@@ -139,6 +147,7 @@ def run_one(ch, cfg):
             dev.plugged = True
         m0 = len(link.transport)
         in_signer = dev.mode == L.MODE_SIGNER
+        dev.expect = copy.deepcopy(pexp)
         rep2, exc2 = w.request(probe)
         ev = link.transport[m0:]
         follow_log.append({"reply": rep2, "exc": type(exc2).__name__ if exc2 else None,
